@@ -144,6 +144,12 @@ Proof.
     intros y Hy. unfold py_setslice in Hy. apply in_or_app.
     apply in_app_or in Hy. destruct Hy as [Hy | Hy]; [left; apply Hin; eapply firstn_In; eauto|].
     apply in_app_or in Hy. destruct Hy as [Hy | Hy]; [right; exact Hy | left; apply Hin; eapply skipn_In; eauto].
+  - (* list SetSliceIter *) repeat split; auto using incl_appl, incl_refl.
+    intros y Hy. unfold py_setslice in Hy. apply in_or_app.
+    apply in_app_or in Hy. destruct Hy as [Hy | Hy]; [left; apply Hin; eapply firstn_In; eauto|].
+    apply in_app_or in Hy. destruct Hy as [Hy | Hy]; [right; exact Hy | left; apply Hin; eapply skipn_In; eauto].
+  - (* list ExtendSelf *) repeat split; auto using incl_appl, incl_refl.
+    intros y Hy. apply in_or_app. apply in_app_or in Hy. destruct Hy as [Hy | Hy]; auto.
   - (* set Assign *) repeat split; auto using incl_appl, incl_refl.
     + apply set_union_NoDup. constructor.
     + intros y Hy. apply set_union_In in Hy. destruct Hy as [[] | Hy]. apply in_or_app. auto.
@@ -186,7 +192,7 @@ Proof.
   destruct k; simpl in *; auto.
 Qed.
 
-(* ---- outside the fragment: the two refutations ------------------------------------------------------------ *)
+(* ---- regression lemmas about the behaviour before 389dedc (the models *_old / extend_live of Container.v) ---- *)
 Lemma extend_live_diverges : forall fuel i s, i < length (items s) -> extend_live fuel i s = None.
 Proof.
   induction fuel as [|n IH]; intros i s Hi; simpl; [reflexivity|].
@@ -195,23 +201,20 @@ Proof.
   - apply nth_error_None in Hn. lia.
 Qed.
 
-(* x.f.extend(x.f) on a non-empty field never terminates (Python: the field doubled) *)
-Theorem refuted_extend_self : forall fuel s, items s <> [] -> extend_live fuel 0 s = None.
+Lemma old_extend_self_diverged : forall fuel s, items s <> [] -> extend_live fuel 0 s = None.
 Proof.
   intros fuel s H. apply extend_live_diverges. destruct (items s); [congruence | simpl; lia].
 Qed.
 
+Lemma old_slice_generator_lost : items (setslice_gen_old 0 1 [1; 2] (init KList [0])) = []
+  /\ items (fst (step KList (SetSliceIter 0 1 [1; 2]) (init KList [0]))) = [1; 2].
+Proof. split; vm_compute; reflexivity. Qed.
+
+(* ---- outside the fragment ------------------------------------------------------------------------------------ *)
 (* q = C(f = p.f); q.f.append(x): x is in p's field and was never recorded for p *)
 Theorem refuted_ctor_alias : exists s x, wf KList (items s) /\ incl (items s) (rec s) /\ let t := append_q x (ctor_alias s) in In x (shared t) /\ ~ In x (recp t).
 Proof.
   exists (init KList [0]), 1. split; [exact I|]. split.
   - intros y Hy. exact Hy.
   - simpl. split; [right; now left|]. intros [H | []]. discriminate.
-Qed.
-
-(* x.f[0:1] = (c for c in [c1, c2]) on [c0]: the field ends up empty, Python gives [c1, c2] *)
-Theorem refuted_slice_generator : exists s i j vs, wf KList (items s) /\ incl (items s) (rec s) /\ items (setslice_gen i j vs s) <> py_setslice i j vs (items s).
-Proof.
-  exists (init KList [0]), 0%Z, 1%Z, [1; 2]. split; [exact I|]. split; [intros y Hy; exact Hy|].
-  vm_compute. discriminate.
 Qed.
